@@ -71,6 +71,8 @@ type inputCoercionForListVisitor struct {
 
 func (i *inputCoercionForListVisitor) EnterDocument(operation, definition *ast.Document) {
 	i.operation, i.definition = operation, definition
+	// the walk of the previous document may have been stopped before LeaveVariableDefinition
+	i.query = i.query[:0]
 }
 
 func (i *inputCoercionForListVisitor) EnterOperationDefinition(ref int) {
